@@ -685,6 +685,14 @@ def m_eq(ex, c, args):
     return val_eq(ex, args[0], args[1])
 
 
+@model("discriminant", "mem::discriminant")
+def m_discriminant(ex, c, args):
+    v = rda(args[0])
+    if type(v) is not Adt:
+        raise Unmodelled("mem::discriminant of %r" % (v,))
+    return Opaque("discriminant", (v.ty, v.var))
+
+
 @model("PartialEq::ne")
 def m_ne(ex, c, args):
     return ex.not_(val_eq(ex, args[0], args[1])) if not isinstance(val_eq(ex, args[0], args[1]), bool) else not val_eq(ex, args[0], args[1])
@@ -1185,6 +1193,15 @@ def it_next(ex, it):
         if it.ty == "RangeFrom":
             a = it.fields[0]
             return a, Adt("RangeFrom", 0, (ex.binop("Add", a, 1, "usize"),))
+        if it.ty == "RangeInclusive":
+            a, b, exhausted = it.fields
+            if exhausted is True:
+                return None, it
+            if truth(ex, ex.binop("Lt", a, b, "usize"), "range"):
+                return a, Adt("RangeInclusive", 0, (ex.binop("Add", a, 1, "usize"), b, False))
+            if truth(ex, ex.binop("Eq", a, b, "usize"), "range"):
+                return a, Adt("RangeInclusive", 0, (a, b, True))
+            return None, it
         f = ex.prog.by_trait.get(("Iterator", it.ty, "next"))
         if f is None:
             raise Unmodelled("Iterator::next for " + it.ty)
